@@ -15,11 +15,20 @@ def _limits():
         pass
 
 
+import shutil as _shutil
+_PRLIMIT = _shutil.which("prlimit")
+
+
 def _signame(rc):
     try:
         return signal.Signals(-rc).name
     except Exception:
         return "rc%d" % rc
+
+
+MAX_ANSWER = 8 << 20
+WINDOW = 100000          # operation lines handed to one process at a time
+MAX_CRASHES = 60       # per stream: after that many crashes / hangs the rest of the stream is skipped
 
 
 def run_stream(cmd, lines, op_timeout, cwd=None):
@@ -28,6 +37,7 @@ def run_stream(cmd, lines, op_timeout, cwd=None):
     answers = [None] * len(lines)
     pos = 0
     stderr_tail = ""
+    crashes = 0
     while pos < len(lines):
         ctx = []
         for j in range(pos - 1, -1, -1):
@@ -35,9 +45,22 @@ def run_stream(cmd, lines, op_timeout, cwd=None):
                 # the image line plus every later state-changing conversion before `pos`
                 ctx = [lines[j]] + [l for l in lines[j + 1:pos] if l.startswith("img_to_")]
                 break
-        feed = ctx + lines[pos:]
+        if crashes > MAX_CRASHES:
+            # a change that makes a large part of the stream crash or hang: a few dozen failing operations are all a
+            # verdict needs; the rest is not run (restarting after each one would take hours)
+            for q in range(pos, len(lines)):
+                answers[q] = "skipped"
+            break
+        window_end = min(len(lines), pos + WINDOW)
+        feed = ctx + lines[pos:window_end]
         skip = len(ctx)
-        proc = subprocess.Popen(cmd, stdin=subprocess.PIPE, stdout=subprocess.PIPE, stderr=subprocess.PIPE, env=ENV, cwd=cwd, preexec_fn=_limits)
+        # the address-space limit is set by `prlimit` (exec wrapper) rather than a preexec_fn: without a preexec_fn
+        # CPython starts the child with vfork, whose cost does not grow with the size of this process (forking a
+        # multi-gigabyte parent thousands of times is what made a crash-heavy run take hours)
+        if _PRLIMIT:
+            proc = subprocess.Popen([_PRLIMIT, "--as=%d" % (6 << 30)] + list(cmd), stdin=subprocess.PIPE, stdout=subprocess.PIPE, stderr=subprocess.PIPE, env=ENV, cwd=cwd)
+        else:
+            proc = subprocess.Popen(cmd, stdin=subprocess.PIPE, stdout=subprocess.PIPE, stderr=subprocess.PIPE, env=ENV, cwd=cwd, preexec_fn=_limits)
         def writer():
             try:
                 proc.stdin.write(("\n".join(feed) + "\n").encode())
@@ -57,10 +80,18 @@ def run_stream(cmd, lines, op_timeout, cwd=None):
         last = time.time()
         dead = False
         timed_out = False
-        while pos < len(lines):
-            nl = buf.find(b"\n")
+        scanned = 0
+        oversized = False
+        while pos < window_end:
+            nl = buf.find(b"\n", scanned)
+            if nl < 0:
+                scanned = len(buf)
+                if scanned > MAX_ANSWER:
+                    # an answer line of many megabytes (e.g. a slice whose length was not clamped): the outcome is
+                    # what counts, not the text; stop the process here instead of reading gigabytes
+                    oversized = True; break
             if nl >= 0:
-                line = buf[:nl].decode("utf-8", "replace"); buf = buf[nl + 1:]
+                line = buf[:nl].decode("utf-8", "replace"); buf = buf[nl + 1:]; scanned = 0
                 if skip:
                     skip -= 1
                 else:
@@ -75,12 +106,16 @@ def run_stream(cmd, lines, op_timeout, cwd=None):
                 buf += chunk
             elif time.time() - last > op_timeout:
                 timed_out = True; break
-        if pos >= len(lines):
+        if pos >= window_end:
             try: proc.kill()
             except Exception: pass
             proc.wait()
-            break
-        if timed_out:
+            continue
+        crashes += 1
+        if oversized:
+            proc.kill(); proc.wait()
+            answers[pos] = "other oversized-answer (more than %d bytes): %s" % (MAX_ANSWER, buf[:200].decode("utf-8", "replace")); pos += 1
+        elif timed_out:
             proc.kill(); proc.wait()
             answers[pos] = "timeout"; pos += 1
         elif dead:
